@@ -58,9 +58,17 @@ const (
 	// pointerified, the flag's Get() returns *net.IP, and Value() falls through
 	// to fval.Convert(net.IP), which panics.
 	keyFlagTextSlice = "flag-text-slice-convert-panic"
+	// pflag source: same mismatch as keyFlagDoublePtr (registerFlags strips
+	// every pointer level, Value() only one): **Count reaches
+	// int32.Convert(*Count).
+	keyPflagDoublePtr = "pflag-double-pointer-convert-panic"
+	// std flag source: the complex flag helper's Get() returns *complex128;
+	// for a named complex type no case matches and Value() calls
+	// (*complex128).Convert(Phase).
+	keyFlagNamedComplex = "flag-named-complex-convert-panic"
 )
 
-var allKeys = []string{keyNamedScalar, keyNamedElem, keyPtrCollection, keyNestedCollection, keyFlagDoublePtr, keyFlagTextSlice}
+var allKeys = []string{keyNamedScalar, keyNamedElem, keyPtrCollection, keyNestedCollection, keyFlagDoublePtr, keyFlagTextSlice, keyPflagDoublePtr, keyFlagNamedComplex}
 
 var (
 	knownOnce sync.Once
@@ -117,7 +125,7 @@ func guard(f func()) (p *panicInfo, hung bool) {
 
 var (
 	reSet      = regexp.MustCompile(`reflect\.Set: value of type (\S+) is not assignable to type (\S+)`)
-	reMapIndex = regexp.MustCompile(`reflect\.Value\.SetMapIndex: value of type (\S+) is not assignable to type (\S+)`)
+	reMapIndex = regexp.MustCompile(`reflect\.Value\.(?:Set)?MapIndex: value of type (\S+) is not assignable to type (\S+)`)
 	reElem     = regexp.MustCompile(`call of reflect\.Value\.Elem on (slice|map) Value`)
 	reOverflow = regexp.MustCompile(`call of reflect\.Value\.Overflow(Int|Uint|Float|Complex) on ptr Value`)
 	reConvert  = regexp.MustCompile(`reflect\.Value\.Convert: value of type \*(\S+) cannot be converted to type (\S+)`)
@@ -148,6 +156,12 @@ func classifyPanic(p *panicInfo) string {
 	}
 	if m := reConvert.FindStringSubmatch(p.msg); m != nil && m[1] == m[2] && strings.Contains(p.stack, "sources/flag.(*Set).Value") {
 		return keyFlagTextSlice
+	}
+	if m := reConvert.FindStringSubmatch(p.msg); m != nil && strings.HasPrefix(m[1], "complex") && strings.Contains(p.stack, "sources/flag.(*Set).Value") {
+		return keyFlagNamedComplex
+	}
+	if strings.Contains(p.msg, "reflect.Value.Convert: value of type") && strings.Contains(p.msg, "cannot be converted to type *") && strings.Contains(p.stack, "sources/pflag.(*Set).Value") {
+		return keyPflagDoublePtr
 	}
 	return "panic"
 }
